@@ -146,7 +146,7 @@ PROPS = {
                 "variables, bound variables refer to the solution's own binders, binder/placeholder universes < query universes, and applying it to the query neither panics nor leaves "
                 "a dangling variable. Workload = all generator fragments + a fixed program with type/lifetime/const unknowns under nested forall (1 case in 5). "
                 "Non-trivial = a checked solution that carries a substitution; distinct = (program, goal, solver, answer).",
-        "min_evals": 5000, "min_nontrivial": 400,
+        "min_evals": 5000, "min_nontrivial": 350,
         "require_observed": ["well-formed:slg:unique", "well-formed:recursive:unique", "well-formed:slg:enumerated-answers", "nontrivial:lifetimes+consts+nested-forall", "well-formed:slg:definite"],
         "assumptions": COMMON_ASSUME,
     },
